@@ -66,7 +66,7 @@ def main():
     for t in targets:
         t0 = time.time()
         c = sh([os.path.join(ROOT, "check"), t, "--tier", "quick", "--src", copy], cwd=ROOT,
-               env=dict(env, VERIF_SEED="0"))
+               env=dict(env, VERIF_SEED=os.environ.get("SEEDTEST_SEED", "0")))
         viol = [l for l in c.stdout.splitlines() if l.startswith("VIOLATION")]
         results[t] = {"rc": c.returncode, "violations": len(viol),
                       "no_failing_input": sum(1 for l in viol if l.endswith("no-failing-input-found")),
@@ -80,8 +80,9 @@ def main():
             except Exception:
                 pass
     meta["checks"] = results
-    meta["caught_by_target"] = results.get(pid, {}).get("rc") == 1
-    meta["caught_by"] = sorted(t for t, r in results.items() if r["rc"] == 1)
+    # caught = the check exited 1 AND printed a VIOLATION line (a crash of the harness is not a catch)
+    meta["caught_by_target"] = results.get(pid, {}).get("rc") == 1 and results.get(pid, {}).get("violations", 0) > 0
+    meta["caught_by"] = sorted(t for t, r in results.items() if r["rc"] == 1 and r["violations"] > 0)
     out = os.path.join(ROOT, "seeded", sid)
     os.makedirs(out, exist_ok=True)
     shutil.copy(patch, os.path.join(out, "patch.diff"))
@@ -95,7 +96,8 @@ def main():
     src_meta = os.path.join(os.path.dirname(os.path.abspath(patch)), "meta%s.json" % os.path.basename(patch)[5:-5])
     if os.path.exists(src_meta):
         try:
-            meta["author_meta"] = json.load(open(src_meta))
+            am = json.load(open(src_meta))
+            meta["author_meta"] = am.get("author_meta", am)
         except Exception:
             pass
     meta["what_i_ran"] = ("rsync copy of /repo + patch -p1; lib/baseline.py on the copy (404 pinned tests); demo.py with PYTHONPATH=copy and "
